@@ -22,7 +22,8 @@ type chfModel struct {
 	f      *ssa.Function
 	ca     *cellAnalysis
 	fe     *formEval
-	disc   *ssa.Lookup // RatingType look-up the mode switch branches on
+	disc   *ssa.Lookup   // RatingType look-up the mode switch branches on
+	discs  []*ssa.Lookup // every read of the mode that is compared with a mode constant
 	modeIn map[*ssa.BasicBlock]enumSet
 	rsv    int64
 	dbt    int64
@@ -55,15 +56,147 @@ func buildChfModel(c *Ctx) *chfModel {
 				}
 			}
 		}
-		if seen[m.rsv] && seen[m.dbt] {
+		if seen[m.rsv] && seen[m.dbt] && m.disc == nil {
 			m.disc = lk
 		}
+		if seen[m.rsv] || seen[m.dbt] {
+			m.discs = append(m.discs, lk)
+		}
 	})
+	if m.disc == nil && len(m.discs) > 0 {
+		// the mode is read again for each test (if ... {} if ... {} instead of a switch):
+		// the first read that dominates the others stands for the dispatch
+		for _, d := range m.discs {
+			domAll := true
+			for _, e := range m.discs {
+				if e != d && !instrDominates(d, e) {
+					domAll = false
+				}
+			}
+			if domAll {
+				m.disc = d
+			}
+		}
+	}
 	if m.disc == nil {
 		broken("anchor: sessionChargingReservation has no switch on the rating type of the rating group")
 	}
-	m.modeIn = enumFlow(f, func(v ssa.Value) bool { return v == ssa.Value(m.disc) })
+	m.modeIn = enumFlow(f, func(v ssa.Value) bool {
+		for _, d := range m.discs {
+			if v == ssa.Value(d) {
+				return true
+			}
+		}
+		return v == ssa.Value(m.disc)
+	})
 	return m
+}
+
+// checkModeExclusive: the reserve step and the debit step of one rating group
+// exclude each other within a request.  When the mode is read more than once,
+// no assignment of the mode may lie between two reads: the reserve step itself
+// switches the group to debit mode when the account runs dry, and a second read
+// would send the same request through the debit step as well (the usage is
+// priced and debited twice, the reservation is zeroed).
+func (m *chfModel) checkModeExclusive(c *Ctx, r *Report, rule string) {
+	key := fnKey(m.f)
+	if len(m.discs) <= 1 {
+		r.proven(rule, key+"|mode read once", posOf(c, m.disc), "the rating mode of the group is read once per request and dispatched on that value")
+		return
+	}
+	bad := ""
+	eachInstr(m.f, func(_ *ssa.BasicBlock, _ int, ins ssa.Instruction) {
+		mu, ok := ins.(*ssa.MapUpdate)
+		if !ok {
+			return
+		}
+		if n, ok := ueFieldOfValue(mu.Map); !ok || n != "RatingType" {
+			return
+		}
+		for _, a := range m.discs {
+			for _, b := range m.discs {
+				if a == b || bad != "" {
+					continue
+				}
+				// only a read that dispatches to the *other* step matters: reading the mode
+				// again to see whether the group is still in the mode of the current step is fine
+				ca, cb := m.comparedWith(a), m.comparedWith(b)
+				if !(ca[m.rsv] && cb[m.dbt]) {
+					continue
+				}
+				// a ... write ... b within one iteration: b must not be reached through the loop head only
+				if canReachWithin(a, mu, b) {
+					bad = fmt.Sprintf("the mode read at %s is read again at %s after it may have been switched at %s", posOf(c, a), posOf(c, b), posOf(c, mu))
+				}
+			}
+		}
+	})
+	r.check(bad == "", rule, key+"|mode re-read", posOf(c, m.disc), "the rating mode is read several times, with no assignment of the mode between two reads",
+		bad+": a request whose reservation step meets an exhausted account (the group is switched to debit mode) also runs the debit step - the reported usage is priced and debited a second time and the reservation is cleared: credit disappears")
+}
+
+func (m *chfModel) comparedWith(lk *ssa.Lookup) map[int64]bool {
+	out := map[int64]bool{}
+	for _, ref := range *lk.Referrers() {
+		if bo, ok := ref.(*ssa.BinOp); ok && bo.Op == token.EQL {
+			if k, ok := constInt(bo.Y); ok {
+				out[k] = true
+			}
+			if k, ok := constInt(bo.X); ok {
+				out[k] = true
+			}
+		}
+	}
+	return out
+}
+
+// canReachWithin: a path a -> mid -> b exists within one iteration of the
+// innermost loop that contains a (the loop head is not passed).
+func canReachWithin(a, mid, b ssa.Instruction) bool {
+	// innermost loop head dominating a
+	var head *ssa.BasicBlock
+	for _, h := range a.Parent().Blocks {
+		isHead := false
+		for _, p := range h.Preds {
+			if h.Dominates(p) {
+				isHead = true
+			}
+		}
+		if isHead && h.Dominates(a.Block()) && (head == nil || head.Dominates(h)) {
+			head = h
+		}
+	}
+	reach := func(from, to ssa.Instruction) bool {
+		if from.Block() == to.Block() {
+			return instrIndex(from) < instrIndex(to)
+		}
+		avoid := map[*ssa.BasicBlock]bool{}
+		if head != nil && head != from.Block() {
+			avoid[head] = true
+		}
+		if a.Block() != from.Block() && a.Block() != to.Block() {
+			avoid[a.Block()] = true
+		}
+		seen := map[*ssa.BasicBlock]bool{}
+		stack := append([]*ssa.BasicBlock{}, from.Block().Succs...)
+		for len(stack) > 0 {
+			x := stack[len(stack)-1]
+			stack = stack[:len(stack)-1]
+			if seen[x] || avoid[x] {
+				continue
+			}
+			seen[x] = true
+			if x == to.Block() {
+				return true
+			}
+			if x == a.Block() {
+				continue // do not go round the loop
+			}
+			stack = append(stack, x.Succs...)
+		}
+		return false
+	}
+	return reach(a, mid) && reach(mid, b)
 }
 
 func (m *chfModel) modeOf(b *ssa.BasicBlock) enumSet {
@@ -184,9 +317,11 @@ func checkC01(c *Ctx, r *Report) {
 	r.rule("C01.R2", "debit step: refund R - p on p < R, debit p - R otherwise (TERMINATION); reservation cleared only after success", 4)
 	r.rule("C01.R3", "account server applies exactly the stated amounts (shared with C07.R1/R2)", 6)
 	r.rule("C01.R5", "accounting cells of the subscriber are written only by the listed writers; the balance only by the CCR handler", 4)
+	r.rule("C01.R7", "the reserve step and the debit step of a rating group exclude each other within one request (the mode is not re-read after it may have been switched)", 1)
 	r.rule("C01.R6", "account server stores the balance before it answers (shared with C07.R5)", 1)
 
 	m := buildChfModel(c)
+	m.checkModeExclusive(c, r, "C01.R7")
 	f, fe := m.f, m.fe
 	key := fnKey(f)
 	DD := constOf(c, "ccs_diameter/datatype", "DIRECT_DEBITING")
